@@ -221,6 +221,33 @@ def _normalise_syntax(tree):
     """
     import copy as _copy
 
+    # unread constant locals
+    for fn in [n for n in ast.walk(tree) if isinstance(n, (ast.FunctionDef, ast.AsyncFunctionDef))]:
+        loads, declared, dyn = set(), set(), False
+        for x in ast.walk(fn):
+            if isinstance(x, ast.Name) and isinstance(x.ctx, (ast.Load, ast.Del)):
+                loads.add(x.id)
+                if x.id in ("locals", "vars", "exec", "eval"):
+                    dyn = True
+            elif isinstance(x, (ast.Global, ast.Nonlocal)):
+                declared |= set(x.names)
+            elif isinstance(x, ast.AugAssign) and isinstance(x.target, ast.Name):
+                loads.add(x.target.id)  # an accumulator reads its initial value
+        if dyn:
+            continue
+        for node in ast.walk(fn):
+            if isinstance(node, ast.ClassDef):
+                continue
+            for field in ("body", "orelse", "finalbody"):
+                blk = getattr(node, field, None)
+                if not (isinstance(blk, list) and blk and isinstance(blk[0], ast.stmt)) or isinstance(node, ast.ClassDef):
+                    continue
+                kept = [s for s in blk if not (isinstance(s, ast.Assign) and len(s.targets) == 1 and isinstance(s.targets[0], ast.Name) and isinstance(s.value, ast.Constant) and s.targets[0].id not in loads and s.targets[0].id not in declared)]
+                if len(kept) != len(blk):
+                    if not kept:
+                        kept = [ast.copy_location(ast.Pass(), blk[0])]
+                    setattr(node, field, kept)
+
     neg = {ast.Is: ast.IsNot, ast.IsNot: ast.Is, ast.In: ast.NotIn, ast.NotIn: ast.In, ast.Eq: ast.NotEq, ast.NotEq: ast.Eq}
 
     class N(ast.NodeTransformer):
@@ -317,32 +344,6 @@ def _normalise_syntax(tree):
 
     tree.body = block(tree.body)
 
-    # unread constant locals
-    for fn in [n for n in ast.walk(tree) if isinstance(n, (ast.FunctionDef, ast.AsyncFunctionDef))]:
-        loads, declared, dyn = set(), set(), False
-        for x in ast.walk(fn):
-            if isinstance(x, ast.Name) and isinstance(x.ctx, (ast.Load, ast.Del)):
-                loads.add(x.id)
-                if x.id in ("locals", "vars", "exec", "eval"):
-                    dyn = True
-            elif isinstance(x, (ast.Global, ast.Nonlocal)):
-                declared |= set(x.names)
-            elif isinstance(x, ast.AugAssign) and isinstance(x.target, ast.Name):
-                loads.add(x.target.id)  # an accumulator reads its initial value
-        if dyn:
-            continue
-        for node in ast.walk(fn):
-            if isinstance(node, ast.ClassDef):
-                continue
-            for field in ("body", "orelse", "finalbody"):
-                blk = getattr(node, field, None)
-                if not (isinstance(blk, list) and blk and isinstance(blk[0], ast.stmt)) or isinstance(node, ast.ClassDef):
-                    continue
-                kept = [s for s in blk if not (isinstance(s, ast.Assign) and len(s.targets) == 1 and isinstance(s.targets[0], ast.Name) and isinstance(s.value, ast.Constant) and s.targets[0].id not in loads and s.targets[0].id not in declared)]
-                if len(kept) != len(blk):
-                    if not kept:
-                        kept = [ast.copy_location(ast.Pass(), blk[0])]
-                    setattr(node, field, kept)
     ast.fix_missing_locations(tree)
 
 
@@ -545,9 +546,9 @@ class Program:
                     tree = ast.parse(source, filename=path)
                 except SyntaxError as e:
                     raise AnalysisError(f"cannot parse {rel}: {e}")
-                _normalise_syntax(tree)
                 if self.strip_logging:
                     _strip_logging(tree)
+                _normalise_syntax(tree)
                 if self.propagate_aliases:
                     _propagate_aliases(tree)
                 if self.inline_temps:
